@@ -532,6 +532,8 @@ class Driver:
             _, o = objs[0]
             if isinstance(o, (dict, Opq, list)):
                 s.events.append(("store-sub", unparse(t), t.lineno))
+                if isinstance(o, Opq) and o.name in self.INPUT_PARAMS:
+                    s.events.append(("param-mutated", o.name, "item store", t.lineno))
                 return
             if isinstance(o, FieldObj):
                 o.mutated.append(("item", t.lineno))
@@ -901,6 +903,10 @@ class Driver:
                 return [(s, Opq("dict.%s" % a))]
             if a in ("get", "pop"):
                 return [(s, Opq("dict.get"))]
+            if a == "setdefault" and len(args) == 2:
+                if args[0] not in d:
+                    d[args[0]] = args[1]
+                return [(s, d[args[0]])]
             raise AnalysisError("%s:%d unsupported dict method %s" % (func.qualname, ln, a))
         if isinstance(f, Opq):
             return self.call_opaque(f, args, kw, s, func, node)
@@ -915,9 +921,15 @@ class Driver:
                     qn_it=qn.it if isinstance(qn, FieldObj) else None,
                     isave=s.env.get(self.isave_name), cons=list(s.cons))
 
+    INPUT_PARAMS = ("stop", "directives", "tsave", "cfl", "flush")     # roles of solve_args: pure inputs
+    MUTATORS = ("update", "setdefault", "pop", "popitem", "clear", "append", "extend", "insert", "remove", "sort", "reverse", "__setitem__")
+
     def call_opaque(self, f, args, kw, s, func, node):
         n = f.name
         ln = node.lineno
+        if "." in n and n.split(".")[0] in self.INPUT_PARAMS and n.split(".")[-1] in self.MUTATORS and n.count(".") == 1:
+            # a mutating method of an object the caller passed in as a pure input
+            s.events.append(("param-mutated", n.split(".")[0], n.split(".")[1], ln))
         if n == "builtin:len":
             a = args[0]
             if isinstance(a, SeqSym):
